@@ -181,6 +181,78 @@ def _mutable_literal(v):
     return isinstance(v, ast.Call) and norm(v.func) in ("dict", "list", "set", "collections.defaultdict", "defaultdict", "collections.OrderedDict", "OrderedDict") and not v.args
 
 
+def complete_memo(fi, cname):
+    """Is every write of function `fi` into the container named `cname` (a module-level name or a parameter with a mutable default) a memo store
+    `cname[key] = value` / `cname.setdefault(key, value)` whose value depends on no parameter the key does not cover, the container being otherwise
+    only read by key (`cname[k]`, `k in cname`, `cname.get(k)`)?  Such a cache cannot change what the function returns: remembering is then
+    behaviour-preserving, and a state rule must not report it.  Conservative: anything it does not recognise is `False`."""
+    from .core import parents, own_nodes as _own
+    from . import flow
+    par = parents(fi.node)
+    params = set(fi.params) - {cname}
+    writes, ok_reads = [], set()
+    for n in _own(fi.node):
+        if isinstance(n, ast.Assign) and any(isinstance(t, ast.Subscript) and isinstance(t.value, ast.Name) and t.value.id == cname for t in n.targets):
+            if len(n.targets) != 1:
+                return False
+            writes.append((n.targets[0].slice, n.value, n))
+            ok_reads.add(id(n.targets[0].value))
+        elif isinstance(n, (ast.AugAssign, ast.Delete)):
+            for t in ([n.target] if isinstance(n, ast.AugAssign) else n.targets):
+                if isinstance(t, ast.Subscript) and isinstance(t.value, ast.Name) and t.value.id == cname:
+                    return False
+        elif isinstance(n, ast.Call) and isinstance(n.func, ast.Attribute) and isinstance(n.func.value, ast.Name) and n.func.value.id == cname:
+            if n.func.attr == "setdefault" and len(n.args) == 2:
+                writes.append((n.args[0], n.args[1], n))
+                ok_reads.add(id(n.func.value))
+            elif n.func.attr == "get" and n.args:
+                ok_reads.add(id(n.func.value))
+            elif n.func.attr in MUTATING_METHODS:
+                return False
+            else:
+                return False
+        elif isinstance(n, ast.Subscript) and isinstance(n.value, ast.Name) and n.value.id == cname and isinstance(n.ctx, ast.Load):
+            ok_reads.add(id(n.value))
+        elif isinstance(n, ast.Compare) and len(n.ops) == 1 and isinstance(n.ops[0], (ast.In, ast.NotIn)) and isinstance(n.comparators[0], ast.Name) and n.comparators[0].id == cname:
+            ok_reads.add(id(n.comparators[0]))
+    if not writes:
+        return False
+    for n in _own(fi.node):
+        if isinstance(n, ast.Name) and n.id == cname and id(n) not in ok_reads:
+            return False                                  # handed on, iterated, measured ...: not only a keyed cache
+
+    def deps(e, seen, depth=0):
+        out = set()
+        for x in ast.walk(e):
+            if isinstance(x, ast.Name):
+                if x.id == cname:
+                    out.add("<the cache itself>")
+                elif x.id in params:
+                    out.add(x.id)
+                elif x.id not in seen and depth < 6:
+                    seen = seen | {x.id}
+                    for st, v in flow.assignments(fi.node, x.id):
+                        if v is not None:
+                            out |= deps(v, seen, depth + 1)
+                        elif isinstance(st, (ast.For, ast.With, ast.AugAssign)) or v is None:
+                            out.add("<unknown binding>") if not isinstance(st, ast.Assign) else None
+                        # the conditions under which this assignment runs
+                        p_ = par.get(st)
+                        while p_ is not None and p_ is not fi.node:
+                            if isinstance(p_, (ast.If, ast.While)):
+                                out |= deps(p_.test, seen, depth + 1)
+                            p_ = par.get(p_)
+        return out
+    for key, val, node in writes:
+        dv, dk = deps(val, frozenset()), deps(key, frozenset())
+        if "<the cache itself>" in dv or "<unknown binding>" in dv:
+            return False
+        # the conditions under which the store itself runs may mention the key only
+        if not dv <= dk:
+            return False
+    return True
+
+
 def shared_mutable_state(prog, modules=None):
     """Containers that outlive a call -- class attributes and module-level names bound to a dict / list / set literal -- and every
     place where a function writes into one of them (subscript store, `del`, augmented store, a mutating method), directly or through
@@ -270,10 +342,14 @@ def shared_mutable_state(prog, modules=None):
                     for t in (n.targets if isinstance(n, (ast.Assign, ast.Delete)) else [n.target]):
                         if isinstance(t, ast.Subscript):
                             d = shared_of(t.value)
+                            if d and isinstance(t.value, ast.Name) and t.value.id in glob and complete_memo(fi, t.value.id):
+                                continue                  # a cache keyed by everything its values depend on
                             if d:
                                 out.append((fi, n, f"{d}: `{norm(t)[:50]}` is written inside {fi.qn}"))
                 elif isinstance(n, ast.Call) and isinstance(n.func, ast.Attribute) and n.func.attr in MUTATING_METHODS:
                     d = shared_of(n.func.value)
+                    if d and isinstance(n.func.value, ast.Name) and n.func.value.id in glob and complete_memo(fi, n.func.value.id):
+                        continue
                     if d:
                         out.append((fi, n, f"{d}: `{norm(n)[:50]}` mutates it inside {fi.qn}"))
     return out
